@@ -25,7 +25,7 @@ impl AsmSource {
 //@fn src/debugger/asm.rs "impl AsmSource" orig ret=r props=C17
         ensures r == self.orig,
 //@end
-//@fn src/debugger/asm.rs "impl AsmSource" get_source_statement ret=r props=C17
+//@fn src/debugger/asm.rs "impl AsmSource" get_source_statement ret=r props=C17,C09
         ensures
             // exactly the addresses that hold an assembled statement map to it; all others show nothing
             (self.orig as int <= address as int && (address as int) < self.orig as int + self.ast@.len())
